@@ -141,6 +141,43 @@ deriving DecidableEq, Repr
 /-- `req.Header.Del("Authorization")` after a successful authentication -/
 def authnStrip (h : Headers) : Headers := hdel h hAuthorization
 
+/-! ## UTF-8 (`unicode/utf8`, `encoding/json`) -/
+
+/-- number of bytes of the valid UTF-8 sequence at the head of `s` (Go's `utf8.DecodeRuneInString`), 0 when there is none -/
+def utf8SeqLen : Str → Nat
+  | [] => 0
+  | b0 :: rest =>
+    let cont (c : UInt8) : Bool := 0x80 ≤ c && c ≤ 0xBF
+    if b0 < 0x80 then 1
+    else match rest with
+      | [] => 0
+      | b1 :: r1 =>
+        if 0xC2 ≤ b0 && b0 ≤ 0xDF then (if cont b1 then 2 else 0)
+        else match r1 with
+          | [] => 0
+          | b2 :: r2 =>
+            let lo1 : UInt8 := if b0 == 0xE0 then 0xA0 else if b0 == 0xF0 then 0x90 else 0x80
+            let hi1 : UInt8 := if b0 == 0xED then 0x9F else if b0 == 0xF4 then 0x8F else 0xBF
+            if 0xE0 ≤ b0 && b0 ≤ 0xEF then (if lo1 ≤ b1 && b1 ≤ hi1 && cont b2 then 3 else 0)
+            else match r2 with
+              | [] => 0
+              | b3 :: _ =>
+                if 0xF0 ≤ b0 && b0 ≤ 0xF4 then (if lo1 ≤ b1 && b1 ≤ hi1 && cont b2 && cont b3 then 4 else 0) else 0
+
+def jsonCarriedAux : Nat → Str → Str
+  | 0, _ => []
+  | _ + 1, [] => []
+  | fuel + 1, b :: rest =>
+    let n := utf8SeqLen (b :: rest)
+    if n = 0 then [0xEF, 0xBF, 0xBD] ++ jsonCarriedAux fuel rest
+    else (b :: rest).take n ++ jsonCarriedAux fuel ((b :: rest).drop n)
+
+/-- a string as JSON carries it (`encoding/json`: every byte that does not start a valid UTF-8 sequence becomes U+FFFD) -/
+def jsonCarried (s : Str) : Str := jsonCarriedAux s.length s
+
+/-- `utf8.ValidString` -/
+def utf8Valid (s : Str) : Bool := jsonCarried s == s
+
 /-! ## impersonation filter -/
 
 def ishex (c : UInt8) : Bool := isDigit c || (97 ≤ c && c ≤ 102) || (65 ≤ c && c ≤ 70)
@@ -212,6 +249,13 @@ inductive ImpReq where
   | extra (key value : Str)
 deriving DecidableEq, Repr
 
+/-- `utf8.ValidString(ref.Namespace) && utf8.ValidString(ref.Name) && utf8.ValidString(ref.FieldPath)` -/
+def refUTF8 : ImpReq → Bool
+  | .sa ns name => utf8Valid ns && utf8Valid name
+  | .user name => utf8Valid name
+  | .group name => utf8Valid name
+  | .extra key value => utf8Valid value && utf8Valid key
+
 /-- the requests for the `Impersonate-Extra-*` entries: one per value, key = `unescapeExtraKey(ToLower(suffix))` -/
 def extraRequests : Headers → List ImpReq
   | [] => []
@@ -220,7 +264,8 @@ def extraRequests : Headers → List ImpReq
       vs.map (ImpReq.extra (unescapeExtraKey (toLower (n.drop hImpExtraPrefix.length)))) ++ extraRequests h
     else extraRequests h
 
-/-- `buildImpersonationRequests`: `none` is the error "requested … without impersonating a user" -/
+/-- `buildImpersonationRequests`: `none` is an error: "requested … without impersonating a user", or (regenerated: whether the
+    source has the check) a reference that is not valid UTF-8 — a SubjectAccessReview could not carry it -/
 def buildImpersonationRequests (h : Headers) : Option (List ImpReq) :=
   let requestedUser := hget h hImpUser
   let hasUser := !requestedUser.isEmpty
@@ -234,7 +279,10 @@ def buildImpersonationRequests (h : Headers) : Option (List ImpReq) :=
   let hasGroups := !groups.isEmpty
   let hasUserExtra := h.any (fun e => hasPrefix e.1 hImpExtraPrefix)
   if (hasGroups || hasUserExtra) && !hasUser then none
-  else some (userReqs ++ groups.map ImpReq.group ++ extraRequests h)
+  else
+    let impersonationRequests := userReqs ++ groups.map ImpReq.group ++ extraRequests h
+    if KG.Gen.C02.impersonationRejectsNonUTF8 && !impersonationRequests.all refUTF8 then none
+    else some impersonationRequests
 
 /-- the `authorizer.AttributesRecord` of one check (verb `impersonate`, `ResourceRequest: true`, `User` = the requestor) -/
 structure Attrs where
@@ -473,38 +521,6 @@ def serveWith (token : Str) (raw : List (Str × Str)) (auth : Option Identity) (
 `AuthorizerConfig.New` → `NewMultiClusterSubjectAccessReviewAuthorizer`: every check is a SubjectAccessReview (JSON) created
 in the TARGET cluster through the endpoint's client; the filter gets `c.Authorization.Authorizer` (shape facts regenerated).
 The decision cache is C12's subject (switched off in the harness). -/
-
-/-- number of bytes of the valid UTF-8 sequence at the head of `s` (Go's `utf8.DecodeRuneInString`), 0 when there is none -/
-def utf8SeqLen : Str → Nat
-  | [] => 0
-  | b0 :: rest =>
-    let cont (c : UInt8) : Bool := 0x80 ≤ c && c ≤ 0xBF
-    if b0 < 0x80 then 1
-    else match rest with
-      | [] => 0
-      | b1 :: r1 =>
-        if 0xC2 ≤ b0 && b0 ≤ 0xDF then (if cont b1 then 2 else 0)
-        else match r1 with
-          | [] => 0
-          | b2 :: r2 =>
-            let lo1 : UInt8 := if b0 == 0xE0 then 0xA0 else if b0 == 0xF0 then 0x90 else 0x80
-            let hi1 : UInt8 := if b0 == 0xED then 0x9F else if b0 == 0xF4 then 0x8F else 0xBF
-            if 0xE0 ≤ b0 && b0 ≤ 0xEF then (if lo1 ≤ b1 && b1 ≤ hi1 && cont b2 then 3 else 0)
-            else match r2 with
-              | [] => 0
-              | b3 :: _ =>
-                if 0xF0 ≤ b0 && b0 ≤ 0xF4 then (if lo1 ≤ b1 && b1 ≤ hi1 && cont b2 && cont b3 then 4 else 0) else 0
-
-def jsonCarriedAux : Nat → Str → Str
-  | 0, _ => []
-  | _ + 1, [] => []
-  | fuel + 1, b :: rest =>
-    let n := utf8SeqLen (b :: rest)
-    if n = 0 then [0xEF, 0xBF, 0xBD] ++ jsonCarriedAux fuel rest
-    else (b :: rest).take n ++ jsonCarriedAux fuel ((b :: rest).drop n)
-
-/-- a string as JSON carries it (`encoding/json`: every byte that does not start a valid UTF-8 sequence becomes U+FFFD) -/
-def jsonCarried (s : Str) : Str := jsonCarriedAux s.length s
 
 /-- the record as the SubjectAccessReview carries it to the target cluster -/
 def jsonAttrs (a : Attrs) : Attrs :=
